@@ -47,7 +47,9 @@ type View struct {
 	ExpServed   map[uint64][]types.Hash256 // ExpiringFileContractIDs(h)
 	SuppTxn     consensus.V1TransactionSupplement
 	SuppBlock   consensus.V1BlockSupplement
-	Panic       string
+	// answers to out-of-range, empty and duplicated arguments (digests), see extremeProbes
+	Extreme []string
+	Panic   string
 }
 
 func digest(b []byte) string {
@@ -185,6 +187,7 @@ func TakeView(db chain.DB, st *chain.DBStore, maxH uint64) (v *View) {
 		}
 		v.SuppTxn = st.SupplementTipTransaction(ProbeTxn(sortedIDs(v.SC), sortedIDs(v.SF), sortedIDs(v.FC)))
 		v.SuppBlock = st.SupplementTipBlock(types.Block{ParentID: tip.ID})
+		v.Extreme = extremeProbes(st, v, tip.ID)
 	}
 	return v
 }
@@ -386,6 +389,7 @@ func Compare(a, b *View) (ds []Difference) {
 	if !bytes.Equal(Enc(a.SuppTxn), Enc(b.SuppTxn)) {
 		add(&Difference{Section: "supplement-tip-transaction", Detail: suppTxnDetail(a.SuppTxn, b.SuppTxn)})
 	}
+	add(cmpStrings("extreme-argument-answers", a.Extreme, b.Extreme))
 	if !bytes.Equal(Enc(a.SuppBlock), Enc(b.SuppBlock)) {
 		d := &Difference{Section: "supplement-tip-block", Detail: "the supplement of an empty child block differs from the twin's"}
 		// a pure reordering of the expiring contracts (same elements, same proofs)?
@@ -459,3 +463,50 @@ func (v *View) ServedProofs() map[types.Hash256]string {
 	}
 	return m
 }
+
+// extremeProbes asks the store with arguments outside the domain the node itself uses:
+// heights beyond the tip and at the top of the range, unknown ids, an empty transaction, a
+// transaction naming the same element several times and in several roles, a child block
+// carrying such transactions.
+func extremeProbes(st *chain.DBStore, v *View, tip types.BlockID) (out []string) {
+	const maxH = ^uint64(0)
+	add := func(name string, val any) { out = append(out, fmt.Sprintf("%s=%v", name, val)) }
+	for _, h := range []uint64{v.Height + 1, v.Height + 1000, maxH, maxH - 1} {
+		idx, ok := st.BestIndex(h)
+		add(fmt.Sprintf("BestIndex(%d)", h-v.Height), fmt.Sprint(ok, idx.ID))
+		add(fmt.Sprintf("ExpiringFileContractIDs(%d)", h-v.Height), len(st.ExpiringFileContractIDs(h)))
+	}
+	unknown := types.BlockID{0xEE, 0xEE, 2}
+	_, _, bok := st.Block(unknown)
+	_, sok := st.State(unknown)
+	_, hok := st.Header(unknown)
+	add("unknown-block", fmt.Sprint(bok, sok, hok))
+	add("SupplementTipTransaction(empty)", digest(Enc(st.SupplementTipTransaction(types.Transaction{}))))
+	var dup types.Transaction
+	if ids := sortedIDs(v.SC); len(ids) > 0 {
+		dup.SiacoinInputs = []types.SiacoinInput{{ParentID: types.SiacoinOutputID(ids[0])}, {ParentID: types.SiacoinOutputID(ids[0])}}
+		dup.SiafundInputs = []types.SiafundInput{{ParentID: types.SiafundOutputID(ids[0])}} // a siacoin id in the siafund role
+	}
+	if ids := sortedIDs(v.FC); len(ids) > 0 {
+		id := types.FileContractID(ids[len(ids)-1])
+		dup.FileContractRevisions = []types.FileContractRevision{{ParentID: id}, {ParentID: id}}
+		dup.StorageProofs = []types.StorageProof{{ParentID: id}, {ParentID: id}}
+	}
+	add("SupplementTipTransaction(duplicates)", digest(Enc(st.SupplementTipTransaction(dup))))
+	{
+		// (the expiring contracts are compared as a set here: their order is the business of the
+		// ordinary sections and of the expiry-order finding)
+		bs := st.SupplementTipBlock(types.Block{ParentID: tip, Transactions: []types.Transaction{dup, {}, dup}})
+		var exp []string
+		for _, e := range bs.ExpiringFileContracts {
+			exp = append(exp, digest(Enc(e)))
+		}
+		sort.Strings(exp)
+		bs.ExpiringFileContracts = nil
+		add("SupplementTipBlock(child with such transactions)", digest(Enc(bs))+fmt.Sprint(exp))
+	}
+	return
+}
+
+// SortedIDs returns the keys of a bucket in the order the probes name them.
+func SortedIDs(m map[types.Hash256][]byte) []types.Hash256 { return sortedIDs(m) }
